@@ -61,6 +61,8 @@ def record(src):
             'chain': obs.get('chain', []), 'validation': src['validation'], 'src': src}
     case['cuts'] = obs.get('cuts', {})
     case['cones'] = obs.get('cones', [])
+    if obs.get('first'):
+        case['first'] = obs['first']
     case['res'] = obs.get('res', obs['orig'])
     case['has_res'] = bool(obs.get('has_res')) or not obs['exc']
     return case
@@ -78,9 +80,32 @@ def probes():
     return out
 
 
+def _has_dead_gate(rec):
+    """Some non-input gate of the circuit lies outside the cone of the outputs."""
+    g = rec['g']
+    seen = set()
+    todo = [o for o in rec['o'] if o in g]
+    while todo:
+        x = todo.pop()
+        if x in seen:
+            continue
+        seen.add(x)
+        todo.extend(o for o in g[x]['o'] if o in g)
+    return any(l not in seen and v['t'] != 'INPUT' for l, v in g.items())
+
+
+# preconditions a call-site finding may name (`requires`): facts about the circuit handed to the failing pass that
+# the defect needs - a failure at the same call site WITHOUT them is a different violation and is reported
+REQUIRES = {
+    'dead-gate': lambda case: _has_dead_gate(case.get('first') or case['orig']),
+}
+
+
 def attribute(case, clauses, finding):
     a = finding.get('attribution', {})
     if a.get('type') != 'callsite':
+        return False
+    if a.get('requires') and not REQUIRES[a['requires']](case):
         return False
     if not clauses or not all(cl.startswith('internal-error') for cl in clauses):
         return False
